@@ -1542,6 +1542,15 @@ func heapProgramBody(p *Prog, r *R, prof string) {
 			p.do(&Op{Name: "NewListOf", Vals: []Operand{p.scalar()}, I: int64(pickOf(r, stressSizes))})
 			long := len(p.m.vars) - 1
 			p.do(&Op{Name: "LAdd", R: long, Vals: []Operand{p.value(long), p.scalar()}})
+		} else if r.chance(0.05) {
+			// homogeneous int / string lists with extreme values, sorted in place (Sort belongs to this property on C17's domain)
+			pool := pickOf(r, [][]*V{{vint(math.MinInt64), vint(math.MaxInt64), vint(1), vint(-1), vint(0), vint(5), vint(math.MinInt64 + 1)}, {vstr(""), vstr("a"), vstr("B"), vstr("é"), vstr("ab")}})
+			var vs []Operand
+			for k, nk := 0, 2+r.Intn(5); k < nk; k++ {
+				vs = append(vs, Operand{V: pickOf(r, pool)})
+			}
+			p.do(&Op{Name: "NewList", Vals: vs})
+			p.do(&Op{Name: "LSort", R: len(p.m.vars) - 1})
 		} else if r.chance(0.03) {
 			// a large list shrunk step by step with multi-index deletes, pops and single deletes (an implementation that gives memory
 			// back does so at some ratio of length to capacity; the call that crosses it is the interesting one)
